@@ -4,9 +4,10 @@
  * word-list obligations):
  *   linear branch (unsorted lists), unbounded-by-invariant over the 2048 entries:
  *       ret == the FIRST index whose outcome is 0, or -1 if there is none
- *   sorted branch, with the TRUSTED bsearch contract: if the outcomes are monotone (1..1, then at most
- *       one 0, then -1..-1 -- which is what "list strictly increasing and comparer monotone" gives):
- *       ret == the index whose outcome is 0, or -1 if there is none
+ *   sorted branch, through a model of libc bsearch that is the textbook binary search (stubs/bsearch_model.h;
+ *       at most 12 probes for 2048 entries, unrolled exactly): if the outcomes are monotone (positive, then at
+ *       most one 0, then negative -- lemma L.cmp.order + closed facts T.sorted_pairs, T.first4_unique give this
+ *       for every key the rule accepts for some word): ret == the index whose outcome is 0, or -1 if none
  *   only the comparer is called; nothing is written. */
 #include "contracts/prelude.h"
 #include "contracts/ghost_str.h"
@@ -25,21 +26,8 @@ static int stub_cmp(const void* a, const void* b) {
     return g_cmp[i];
 }
 
-/* TRUSTED contract of libc bsearch (no model in CBMC 6.11; DESIGN.md section 9 item 3):
- * on an array whose comparison outcomes against the key are monotone (the harness assumes this in the
- * sorted branch) bsearch calls the comparer on (key, element) pairs only, writes nothing, and returns
- * a pointer to an element that compares equal if one exists, NULL otherwise. */
-void* bsearch(const void* key, const void* base, size_t nmemb, size_t size,
-    int (*compar)(const void*, const void*)) {
-    __CPROVER_assert(nmemb == POLYSEED_LANG_SIZE && size == sizeof(const char*) && base == &h_lang->words[0],
-        "bsearch.requires: the whole list, element size of a pointer");
-    size_t r = nondet_size();
-    if (r < nmemb && compar(key, (const char*)base + r * size) == 0) {
-        return (void*)((const char*)base + r * size);
-    }
-    __CPROVER_assume(__CPROVER_forall { size_t q; (q < 2048) ==> (g_cmp[q] != 0) });
-    return NULL;
-}
+/* libc bsearch: the textbook algorithm (stubs/bsearch_model.h), not an assumed contract */
+#include "stubs/bsearch_model.h"
 
 static polyseed_lang the_lang;
 
@@ -51,10 +39,12 @@ void harness(void) {
     char tok[8]; tok[7] = '\0';
     h_word = tok;
     __CPROVER_assume(__CPROVER_forall { size_t q; (q < 2048) ==> (g_cmp[q] >= -1 && g_cmp[q] <= 1) });
-    if (sorted) {   /* list strictly increasing + comparer monotone for the key  =>  outcomes 1..1 [0] -1..-1 */
-        __CPROVER_assume(__CPROVER_forall { size_t q; (q < 2047) ==> (g_cmp[q] >= g_cmp[q + 1] && (g_cmp[q] != 0 || g_cmp[q + 1] != 0)) });
-    }
     __CPROVER_assume(g_k < 2048);
+    if (sorted) {   /* outcomes monotone: for all p <= q, g_cmp[p] >= g_cmp[q], and at most one 0 -- instantiated at the
+                       arbitrary index g_k (first or second position), which is all a proof about index g_k can use */
+        __CPROVER_assume(__CPROVER_forall { size_t q; (q < 2048) ==> ((q > g_k || g_cmp[q] >= g_cmp[g_k]) && (q < g_k || g_cmp[q] <= g_cmp[g_k])
+            && (q == g_k || g_cmp[q] != 0 || g_cmp[g_k] != 0)) });
+    }
 
     int r = lang_search(&the_lang, tok, &stub_cmp);
     CANARY();
@@ -65,6 +55,6 @@ void harness(void) {
         __CPROVER_assert(r < 0 || g_k >= (size_t)r || g_cmp[g_k] != 0, "lang_search(linear): the FIRST matching index is returned");
         __CPROVER_assert(r >= 0 || g_cmp[g_k] != 0, "lang_search(linear): -1 only if no entry matches");
     } else {
-        __CPROVER_assert(r >= 0 || g_cmp[g_k] != 0, "lang_search(sorted, trusted bsearch contract): -1 only if no entry matches");
+        __CPROVER_assert(r >= 0 || g_cmp[g_k] != 0, "lang_search(sorted, binary search): -1 only if no entry matches");
     }
 }
